@@ -186,6 +186,10 @@ func (f *frame) exec(in ssa.Instruction, g Term, st *State) error {
 		if mt, ok := x.X.Type().Underlying().(*types.Map); ok {
 			ri.m = f.val(x.X)
 			ri.mt = mt
+			// ghost: no key has been produced yet
+			ks := tt.sort(mt.Key())
+			ri.gv = fmt.Sprintf("GV:%s:%d", ks, len(f.rangeOf)+1)
+			vc.setHeap(st, ri.gv, Term{fmt.Sprintf("((as const %s) false)", ArraySort(ks, SBool)), ArraySort(ks, SBool)})
 		} else {
 			ri.isStr = true
 		}
@@ -324,6 +328,25 @@ func (f *frame) execNext(x *ssa.Next, g Term, st *State) error {
 	vc.assume(g, tt.wf(mt.Key(), k, st.Alloc))
 	// a produced key is present in the map at this moment
 	vc.assume(g, Implies(ok, vc.mapHas(st, mt, ri.m, k)))
+	if ri.gv != "" {
+		// ... and has not been produced before; when the range ends over a map the loop does not
+		// modify, every key of the map has been produced (Go's range visits each entry once)
+		vis := vc.heap(st, ri.gv)
+		vc.assume(g, Implies(ok, Not(Select(vis, k))))
+		modified := true
+		if lis := f.inLoop[x.Block()]; len(lis) > 0 {
+			li := lis[len(lis)-1]
+			mk, all, _ := f.loopMods(li)
+			modified = all || mk[vc.mapKeys(mt)[1]]
+		}
+		if !modified {
+			vc.nfresh++
+			kk := fmt.Sprintf("gvk_%d", vc.nfresh)
+			kt := Term{kk, tt.sort(mt.Key())}
+			vc.cmd(fmt.Sprintf("(assert (=> (and %s (not %s)) (forall ((%s %s)) (! (=> %s %s) :pattern (%s)))))", g.S, ok.S, kk, kt.Sort, vc.mapHas(st, mt, ri.m, kt).S, Select(vis, kt).S, Select(vis, kt).S))
+		}
+		vc.setHeap(st, ri.gv, Ite(ok, Store(vis, k, True), vis))
+	}
 	raw := vc.mapGet(st, mt, ri.m, k)
 	raw.Sort = tt.sort(mt.Elem())
 	v := vc.define(f.pfx+"nextv", raw)
